@@ -568,7 +568,28 @@ def check_interval(fx, R):
                 R.check(ok, 'B3', '%s::inside' % cname, 'inside() is %s; the closed interval needs val >= lower and val <= upper on every coordinate' % (r[0],),
                         'lower <= val <= upper on every coordinate', fx.rel(fi['loc']), 'E-ORD')
             else:
-                R.undecided('B3', '%s::inside' % cname, 'idiom not recognised: %s' % (r,))
+                from .. import mini
+                bad, n_ok, why = None, 0, None
+                for (l_, u_) in ((1.0, 3.0), (2.0, 2.0), (-4.0, -1.0)):
+                    for v_ in (l_ - 1, l_, (l_ + u_) / 2, u_, u_ + 1):
+                        try:
+                            got_ = mini.Step(deep_unwrap).call(fi['body'], {'val': v_, 'this.lower_': l_, 'this.upper_': u_})
+                        except mini.Unsupported as e:
+                            why = str(e)
+                            break
+                        if bool(got_) != (l_ <= v_ <= u_):
+                            bad = bad or (v_, l_, u_, got_)
+                        else:
+                            n_ok += 1
+                    if why:
+                        break
+                if why:
+                    R.undecided('B3', '%s::inside' % cname, 'idiom not recognised and not interpretable on scalars (%s): %s' % (why, r))
+                elif bad:
+                    R.violated('B3', 'Interval::inside:predicate', 'for the value %g and the interval [%g, %g] inside() evaluates to %s; the closed interval needs %s [%s]' % (
+                        bad[0], bad[1], bad[2], bool(bad[3]), bad[1] <= bad[0] <= bad[2], cname), fx.rel(fi['loc']), 'E-STEP')
+                else:
+                    R.holds('B3', '%s::inside' % cname, 'predicate agrees with lower <= val <= upper on %d witness cells (degenerate interval and both closed ends included)' % n_ok, fx.rel(fi['loc']), 'E-STEP')
         else:
             R.undecided('B3', '%s::inside' % cname, 'inside() not instantiated')
         if fc is not None:
@@ -579,6 +600,41 @@ def check_interval(fx, R):
                 b = {}
                 if m(('=', '$X', ('$F', '$X', ('$G', 'interval'))), s, b):
                     got[b['$X']] = (b['$F'], b['$G'])
+            step_verdict = None
+            if 'this.lower_' not in got or 'this.upper_' not in got:
+                # E-STEP: include() on one generic coordinate, on witness pairs of intervals
+                from .. import mini
+
+                def acc_names(t):
+                    t = deep_unwrap(t)
+                    def rep(x):
+                        if x == ('.lower', 'interval'):
+                            return 'ilo'
+                        if x == ('.upper', 'interval'):
+                            return 'ihi'
+                        if isinstance(x, tuple):
+                            return tuple(rep(y) for y in x)
+                        return x
+                    return rep(t)
+                step_verdict = ('holds', 0)
+                for (il, iu) in ((0.0, 2.0), (2.0, 5.0), (0.0, 5.0), (1.5, 2.5), (4.0, 6.0), (-3.0, -2.0)):
+                    env = {'this.lower_': 1.0, 'this.upper_': 3.0, 'ilo': il, 'ihi': iu}
+                    try:
+                        mini.Step(acc_names).call(fc['body'], env)
+                    except mini.Unsupported as e:
+                        step_verdict = ('undecided', str(e))
+                        break
+                    want_ = (min(1.0, il), max(3.0, iu))
+                    if (env['this.lower_'], env['this.upper_']) != want_:
+                        step_verdict = ('violated', 'including [%g, %g] into [1, 3] leaves [%g, %g]; the hull is [%g, %g]' % (il, iu, env['this.lower_'], env['this.upper_'], want_[0], want_[1]))
+                        break
+                    step_verdict = ('holds', step_verdict[1] + 1)
+                if step_verdict[0] == 'holds':
+                    R.holds('B5', '%s::include:step' % cname, 'include() yields the hull on %d witness pairs (overlapping, nested, disjoint on either side)' % step_verdict[1], fx.rel(fc['loc']), 'E-STEP')
+                    continue
+                if step_verdict[0] == 'violated':
+                    R.violated('B5', 'Interval::include:step', step_verdict[1] + ' [%s]' % cname, fx.rel(fc['loc']), 'E-STEP')
+                    continue
             for fld, fmin, acc in (('this.lower_', 'min', '.lower'), ('this.upper_', 'max', '.upper')):
                 g = got.get(fld)
                 inst = '%s::include:%s' % (cname, fld[5:])
